@@ -41,4 +41,13 @@ CHECKS = {
                  flaky_is_violation=True),
         ],
     },
+    "C19": {
+        "level": "exploration",
+        "assumptions": ["goroutines the request handler spawns itself and the expiration workers are not gated (they run freely, as in production)"],
+        "units": [
+            unit("uselimit", "vault", ["vault/c19_test.go"], "^TestVerif_C19_",
+                 quick={"checks": 250, "shards": 1, "cap": 900},
+                 thorough={"checks": 1500, "shards": 16, "cap": 3000}),
+        ],
+    },
 }
